@@ -27,7 +27,8 @@ def exhaustive(tier):
 
 
 def model_runs(tier):
-    return []
+    from harness import algo
+    return algo.earley(tier)
 
 
 hashseeds = c08.hashseeds
